@@ -584,7 +584,30 @@ func genC10Reuse(rng *hx.Rng, n int, tier string, emit func(hx.Input)) {
 			return
 		}
 		a := ha.ms
-		switch rng.Intn(5) {
+		switch rng.Intn(7) {
+		case 5, 6: // A ; B with a token the driver refuses in the middle ; A+tail   (seeded change C02-E: a driver that
+			// remembers the last command must not believe a command it applied only in part)
+			hb := c10Line(rng, StartPosFEN, 2+rng.Intn(12))
+			if hb == nil || len(hb.ms) < 2 {
+				return
+			}
+			k := rng.Intn(len(hb.ms))
+			hp := newC10Hist(StartPosFEN, "")
+			for _, m := range hb.ms[:k] {
+				hp.play(m)
+			}
+			var bad move.Move
+			for try := 0; try < 200 && bad == 0; try++ {
+				m := move.From(Square(rng.Intn(64))) | move.To(Square(rng.Intn(64)))
+				if m.From() != m.To() && !hp.b.IsPseudoLegal(m) {
+					bad = m
+				}
+			}
+			if bad == 0 {
+				return
+			}
+			bb := append(append(append([]move.Move{}, hb.ms[:k]...), bad), hb.ms[k:]...)
+			emitCase([]cmd{{0, a, "", ""}, {0, bb, "refused-token-inside", ""}, {0, extend(StartPosFEN, a, 1+rng.Intn(6)), "continuation-of-first", ""}}, "A;B-refused;A+tail")
 		case 0: // A ; fen X ; A+tail
 			emitCase([]cmd{{0, a, "", ""}, fenCmd(3, 0), {0, extend(StartPosFEN, a, 1+rng.Intn(6)), "continuation-of-first", ""}}, "A;fenX;A+tail")
 		case 1: // A ; fen X moves .. ; A
